@@ -295,6 +295,71 @@ def check_derived(case: t.Any, ctx: Ctx) -> None:
                  f"{before[0]} {dict(before[1])} ({k}){'' if frozen else ' and an assignment to the instance'} the caller's mapping is {dict(after[1])}")
 
 
+# ---- an instance handed in as (part of) the value --------------------------------------------------------------------------------
+#
+# "modifies the value passed in, at any depth": a dataclass instance inside the data is a value passed in like any other.  A converter
+# takes it as already converted - and leaves it alone, frozen or not, whatever was assigned to its fields since it was made.
+
+INST_CALLS = ['from_data(List)', 'from_data(Dict)', 'from_data(bare)', 'convert', 'into_data(bare)', 'into_data(union field)', 'Outer(item=inst)',
+              'from_data(tagged)', 'failing from_data(Tuple)']
+
+
+def inst_cases(shard: int, nshards: int) -> t.Iterator[t.Any]:
+    i = 0
+    for frozen in (True, False):
+        for assigned in (False, True):
+            for ci in range(len(INST_CALLS)):
+                if i % nshards == shard:
+                    yield [frozen, assigned, ci]
+                i += 1
+
+
+def check_instances(case: t.Any, ctx: Ctx) -> None:
+    import pane
+    from pane.annotations import Tagged
+    (frozen, assigned, ci) = case
+    key = ('Item', frozen)
+    if key not in _HC:
+        Item = type('Item', (pane.PaneBase,), {'__annotations__': {'x': float, 'y': float, 'pts': t.List[float], 'kind': t.Literal['item']},
+                                               'kind': 'item', 'y': 2.0, 'pts': pane.field(default_factory=list)}, frozen=frozen)
+        Other = type('Other', (pane.PaneBase,), {'__annotations__': {'kind': t.Literal['other']}, 'kind': 'other'}, frozen=frozen)
+        Box = type('Box', (pane.PaneBase,), {'__annotations__': {'item': t.Union[Item, int]}})
+        _HC[key] = (Item, Other, Box)
+    (Item, Other, Box) = _HC[key]
+    inst = Item(x=1.5, pts=[1.0, 2.0])
+    if assigned:
+        if frozen:
+            return      # (nothing can be assigned)
+        inst.pts = (1, 2)       # assignment does not convert: the field holds what the caller put there
+        inst.x = 1
+    call = INST_CALLS[ci]
+    ctx.label(call, 'frozen' if frozen else 'mutable', 'assigned-since' if assigned else 'as-made')
+    ctx.nontrivial(not frozen)
+
+    def snap() -> t.Any:
+        return (repr(inst), [(n, type(getattr(inst, n)).__name__, id(getattr(inst, n))) for n in ('kind', 'x', 'y', 'pts')],
+                [(type(e).__name__, e) for e in inst.pts], sorted(inst.dict(set_only=True)))
+    before = snap()
+    TU = t.Annotated[t.Union[Item, Other], Tagged('kind')]
+    f = {
+        'from_data(List)': lambda: pane.from_data([inst], t.List[Item]),
+        'from_data(Dict)': lambda: pane.from_data({'k': inst}, t.Dict[str, Item]),
+        'from_data(bare)': lambda: pane.from_data(inst, Item),
+        'convert': lambda: pane.convert(inst, Item),
+        'into_data(bare)': lambda: pane.into_data(inst, Item),
+        'into_data(union field)': lambda: pane.into_data(Box.make_unchecked(item=inst)),
+        'Outer(item=inst)': lambda: Box(item=inst),
+        'from_data(tagged)': lambda: pane.from_data([inst], t.List[TU]),
+        'failing from_data(Tuple)': lambda: pane.from_data([inst, 'not an int'], t.Tuple[Item, int]),
+    }[call]
+    ctx.evaluated()
+    (k, r) = outcome(f)
+    after = snap()
+    if after != before:
+        ctx.fail('input-unchanged', f"instance-in-data/{call}", f"class Item(x: float, y: float = 2.0, pts: List[float], kind: Literal['item']), {'frozen' if frozen else 'not frozen'}, "
+                 f"{'fields assigned since' if assigned else 'as constructed'}: after {call} ({k}) the instance went from {before} to {after}")
+
+
 def _inserting() -> t.Any:
     # mapping-shaped targets (struct literals, Dict / Mapping, dataclasses) first, then the whole grammar
     sc = tg.type_specs(2)
@@ -318,6 +383,8 @@ def suites(tier: str) -> t.List[Suite]:
               budget_s=480 if big else 40, render=gen.render_case),
         Suite('inserting-maps', check, strategy=_inserting, examples=4000 if big else 300, budget_s=200 if big else 20, render=gen.render_case),
         Suite('derived-field', check_derived, cases=derived_cases, exhaustive=True, budget_s=30, render=lambda c: {'frozen': c[0], 'path': c[1], 'mapping': c[2]}),
+        Suite('instances-in-data', check_instances, cases=inst_cases, exhaustive=True, budget_s=30,
+              render=lambda c: {'frozen': c[0], 'fields assigned after construction': c[1], 'call': INST_CALLS[c[2]]}),
         Suite('variant-converter', check_hasconv, cases=hasconv_cases, exhaustive=True, budget_s=30, render=lambda c: {'layout': c[0], 'where': c[1], 'mapping': c[2]}),
         Suite('tagged', check, strategy=_tagged, examples=3000 if big else 250, budget_s=240 if big else 25, render=gen.render_case),
     ]
